@@ -78,6 +78,9 @@ def reingold_tilford(
         x_offset (float): graph offset of x-coordinates
         y_offset (float): graph offset of y-coordinates
     """
+    # Intermediate `shift` values of a previous run must not leak into this run
+    for _node in iterators.preorder_iter(tree_node):
+        _node.__dict__.pop("shift", None)
     _first_pass(tree_node, sibling_separation, subtree_separation)
     x_adjustment = _second_pass(tree_node, level_separation, x_offset, y_offset)
     _third_pass(tree_node, x_adjustment)
